@@ -5,6 +5,7 @@
    revoked on that server.  L1 judges every sign / verify / reload / repl line; L2 predicts the exact
    result and the exact change of the stored key set (drift only). *)
 EXTENDS KKeys, Sequences, Json, IOUtils
+CONSTANT MaxAge     \* CHANGELOG_MAX_AGE (604800 s)
 Rec == ndJsonDeserialize(IOEnv.TRACE)
 VARIABLES l, cur, ever, restarted   \* restarted: servers restarted (reload) since the reset
 
@@ -19,21 +20,23 @@ L2SignRes(keys, u, t) == IF Started(keys, u, t) = {} THEN "err" ELSE "ok"
 NewKeys(before, after) == DOMAIN after \ DOMAIN before
 Unchanged(before, after, except) == \A k \in DOMAIN before \ except : k \in DOMAIN after /\ after[k] = before[k]
 UsagesOf(keys) == {keys[k].u : k \in DOMAIN keys}
-L2Rotate(before, after, vf) ==
+L2Rotate(before, after, vf, now) ==
   /\ Unchanged(before, after, {})
   /\ \A u \in UsagesOf(before) : Cardinality({k \in NewKeys(before, after) : after[k].u = u}) = 1
-  /\ \A k \in NewKeys(before, after) : after[k].st = "valid" /\ after[k].vf = vf
-L2Revoke(before, after, kid) ==
+  /\ \A k \in NewKeys(before, after) : after[k].st = "valid" /\ after[k].vf = vf /\ after[k].sc = now
+\* the revoked key carries the change id of the REVOKING transaction
+L2Revoke(before, after, kid, now) ==
   /\ kid \in DOMAIN after /\ after[kid].st = "revoked"
+  /\ (before[kid].st # "revoked" => after[kid].sc = now)
   /\ Unchanged(before, after, {kid})
   /\ LET u == before[kid].u
          base == {j \in OfUsage(before, u) \ {kid} : before[j].st = "valid" /\ before[j].vf = None}
      IN  IF base = {} /\ before[kid].st # "revoked"
          THEN /\ Cardinality(NewKeys(before, after)) = 1
-              /\ \A k \in NewKeys(before, after) : after[k] = [u |-> u, st |-> "valid", vf |-> None]
+              /\ \A k \in NewKeys(before, after) : after[k] = [u |-> u, st |-> "valid", vf |-> None, sc |-> now]
          ELSE NewKeys(before, after) = {}
 \* replication / restart: the destination holds the merge (status only moves up), nothing else changes
-L2Repl(tobefore, from, toafter) == toafter = Merge(tobefore, from)
+L2Repl(tobefore, from, toafter, now) == toafter = Trim(Merge(tobefore, from), now, MaxAge)
 
 Max(a, b) == IF a >= b THEN a ELSE b
 
@@ -42,10 +45,10 @@ L2StateOk(r) ==
        (~(Has(r, "srv") /\ s = r.srv) \/ (r.a \in {"rotate", "revoke"} /\ o # r.obj) \/ r.res # "ok")
           => Keys(r.st, s, o) = Keys(cur, s, o)
   /\ r.res = "ok" =>
-       CASE r.a = "rotate" -> L2Rotate(Keys(cur, r.srv, r.obj), Keys(r.st, r.srv, r.obj), Max(r.at, r.t))
-         [] r.a = "revoke" -> L2Revoke(Keys(cur, r.srv, r.obj), Keys(r.st, r.srv, r.obj), r.k)
+       CASE r.a = "rotate" -> L2Rotate(Keys(cur, r.srv, r.obj), Keys(r.st, r.srv, r.obj), Max(r.at, r.t), r.t)
+         [] r.a = "revoke" -> L2Revoke(Keys(cur, r.srv, r.obj), Keys(r.st, r.srv, r.obj), r.k, r.t)
          [] r.a = "reload" -> \A o \in Objs : Keys(r.st, "A", o) = Keys(cur, "A", o)
-         [] r.a = "repl"   -> \A o \in Objs : L2Repl(Keys(cur, r.to, o), Keys(cur, r.from, o), Keys(r.st, r.to, o))
+         [] r.a = "repl"   -> \A o \in Objs : L2Repl(Keys(cur, r.to, o), Keys(cur, r.from, o), Keys(r.st, r.to, o), r.t)
          [] OTHER -> TRUE
 
 \* ---- L1 on state-carrying lines: nothing ever seen revoked is un-revoked; a successful exchange
